@@ -727,6 +727,136 @@ void tuple_spy(Ctx& c)
     spy_compare("tuple_cat(t&&,u&&)", [&] { auto r = etl::tuple_cat(ET(a, b, k), ET(a, b, k)); }, [&] { auto r = std::tuple_cat(ST(a, b, k), ST(a, b, k)); });
 }
 
+// ------------------------------------------------------------------------------------------------ element types with their own (ADL) swap
+// std::pair::swap / std::tuple::swap / swap(pair,pair) / swap on arrays are specified through an unqualified swap of the
+// elements: an element type whose own namespace-scope swap differs observably from move-swapping (keeps its identity,
+// exchanges only the payload, marks and counts) must end in the same state, with the same number of calls of its own swap
+// and of its move/copy members, as with std.
+using c20adl::Sw;
+// run the std side, then the etl side; compare the counters of the element type's operations
+template <typename E, typename S>
+void adl_compare(char const* op, E&& e, S&& s)
+{
+    c20adl::counters().clear();
+    s();
+    c20adl::Counters cs = c20adl::counters();
+    c20adl::counters().clear();
+    crumb(op);
+    e();
+    c20adl::Counters ce = c20adl::counters();
+    c20adl::counters().clear();
+    if (ce.swaps != cs.swaps) {
+        vf::diverge(ce.swaps < cs.swaps ? "element-swap-calls:fewer(own-swap-bypassed)" : "element-swap-calls:more", c20adl::show(ce), c20adl::show(cs));
+    } else if (ce.move_ctor != cs.move_ctor || ce.move_assign != cs.move_assign || ce.copy_ctor != cs.copy_ctor || ce.copy_assign != cs.copy_assign) {
+        vf::diverge("element-move/copy-calls", c20adl::show(ce), c20adl::show(cs));
+    }
+    cover(op);
+}
+void eq_sw(char const* name, Sw const& e, Sw const& s)
+{
+    if (e.id != s.id || e.payload != s.payload || e.marks != s.marks) {
+        char sym[96];
+        std::snprintf(sym, sizeof sym, "%s:%s", name, e.id != s.id ? "identity-moved" : (e.payload != s.payload ? "payload" : "marks"));
+        vf::diverge(sym, c20adl::show(e), c20adl::show(s));
+    }
+}
+template <typename Sw = c20adl::Sw> // a template so that the `requires` probes below are SFINAE contexts
+void swap_adl(Ctx& c)
+{
+    g_sit = "element-with-own-swap";
+    // ---- pair
+    g_subj = "pair<Sw,int>";
+    {
+        etl::pair<Sw, int> ea(Sw(100, c.x[0]), c.x[1]), eb(Sw(200, c.y[0]), c.y[1]);
+        std::pair<Sw, int> sa(Sw(100, c.x[0]), c.x[1]), sb(Sw(200, c.y[0]), c.y[1]);
+        adl_compare("swap(pair&)", [&] { ea.swap(eb); }, [&] { sa.swap(sb); });
+        eq_sw("lhs.first", ea.first, sa.first);
+        eq_sw("rhs.first", eb.first, sb.first);
+        vf::eq_int("lhs.second", ea.second, sa.second);
+        adl_compare("swap(a,b)", [&] { swap(ea, eb); }, [&] { swap(sa, sb); });
+        eq_sw("lhs.first", ea.first, sa.first);
+        eq_sw("rhs.first", eb.first, sb.first);
+        vf::eq_int("rhs.second", eb.second, sb.second);
+        g_sit = "element-with-own-swap,self";
+        adl_compare("swap(pair&)", [&] { ea.swap(ea); }, [&] { sa.swap(sa); });
+        eq_sw("lhs.first", ea.first, sa.first);
+        g_sit = "element-with-own-swap";
+    }
+    g_subj = "pair<Sw,Sw>";
+    {
+        etl::pair<Sw, Sw> ea(Sw(1, c.x[0]), Sw(2, c.x[1])), eb(Sw(3, c.y[0]), Sw(4, c.y[1]));
+        std::pair<Sw, Sw> sa(Sw(1, c.x[0]), Sw(2, c.x[1])), sb(Sw(3, c.y[0]), Sw(4, c.y[1]));
+        adl_compare("swap(pair&)", [&] { ea.swap(eb); }, [&] { sa.swap(sb); });
+        eq_sw("lhs.first", ea.first, sa.first);
+        eq_sw("lhs.second", ea.second, sa.second);
+        eq_sw("rhs.first", eb.first, sb.first);
+        eq_sw("rhs.second", eb.second, sb.second);
+    }
+    // arrays of such elements inside a pair: swap of arrays is element-wise unqualified swap as well
+    g_subj = "pair<Sw[2],int>";
+    if constexpr (requires(etl::pair<Sw[2], int>& p) { p.swap(p); }) {
+        etl::pair<Sw[2], int> ea, eb;
+        std::pair<Sw[2], int> sa, sb;
+        for (int i = 0; i < 2; ++i) {
+            ea.first[i] = sa.first[i] = Sw(10 + i, c.x[i]);
+            eb.first[i] = sb.first[i] = Sw(20 + i, c.y[i]);
+        }
+        ea.second = sa.second = c.x[2];
+        eb.second = sb.second = c.y[2];
+        adl_compare("swap(pair&)", [&] { ea.swap(eb); }, [&] { sa.swap(sb); });
+        for (int i = 0; i < 2; ++i) {
+            eq_sw("lhs.first[i]", ea.first[i], sa.first[i]);
+            eq_sw("rhs.first[i]", eb.first[i], sb.first[i]);
+        }
+        vf::eq_int("lhs.second", ea.second, sa.second);
+    }
+    // ---- tuple
+    g_subj = "tuple<Sw,int,Sw>";
+    {
+        etl::tuple<Sw, int, Sw> ea(Sw(1, c.x[0]), c.x[1], Sw(2, c.x[2])), eb(Sw(3, c.y[0]), c.y[1], Sw(4, c.y[2]));
+        std::tuple<Sw, int, Sw> sa(Sw(1, c.x[0]), c.x[1], Sw(2, c.x[2])), sb(Sw(3, c.y[0]), c.y[1], Sw(4, c.y[2]));
+        adl_compare("swap(tuple&)", [&] { ea.swap(eb); }, [&] { sa.swap(sb); });
+        eq_sw("lhs.element0", etl::get<0>(ea), std::get<0>(sa));
+        eq_sw("lhs.element2", etl::get<2>(ea), std::get<2>(sa));
+        eq_sw("rhs.element0", etl::get<0>(eb), std::get<0>(sb));
+        eq_sw("rhs.element2", etl::get<2>(eb), std::get<2>(sb));
+        vf::eq_int("lhs.element1", etl::get<1>(ea), std::get<1>(sa));
+        vf::eq_int("rhs.element1", etl::get<1>(eb), std::get<1>(sb));
+        // free swap(tuple&, tuple&): only where etl provides it (detected, otherwise skipped like every absent API)
+        if constexpr (requires(etl::tuple<Sw, int, Sw>& a, etl::tuple<Sw, int, Sw>& b) { swap(a, b); }) {
+            adl_compare("swap(a,b)", [&] { swap(ea, eb); }, [&] { swap(sa, sb); });
+            eq_sw("lhs.element0", etl::get<0>(ea), std::get<0>(sa));
+            eq_sw("rhs.element2", etl::get<2>(eb), std::get<2>(sb));
+        }
+        g_sit = "element-with-own-swap,self";
+        adl_compare("swap(tuple&)", [&] { ea.swap(ea); }, [&] { sa.swap(sa); });
+        eq_sw("lhs.element0", etl::get<0>(ea), std::get<0>(sa));
+        g_sit = "element-with-own-swap";
+    }
+    g_subj = "tuple<Sw&,int>";
+    {
+        Sw a1(1, c.x[0]), b1(2, c.y[0]), a2(1, c.x[0]), b2(2, c.y[0]);
+        etl::tuple<Sw&, int> ea(a1, c.x[1]), eb(b1, c.y[1]);
+        std::tuple<Sw&, int> sa(a2, c.x[1]), sb(b2, c.y[1]);
+        adl_compare("swap(tuple&)", [&] { ea.swap(eb); }, [&] { sa.swap(sb); });
+        eq_sw("referred-lhs", a1, a2);
+        eq_sw("referred-rhs", b1, b2);
+    }
+    // the generic etl::swap itself on such a type called the way generic code does (two-step): the type's own swap wins
+    g_subj = "swap(T&,T&)";
+    {
+        Sw a1(1, c.x[0]), b1(2, c.y[0]), a2(1, c.x[0]), b2(2, c.y[0]);
+        adl_compare("using etl::swap; swap(a,b)", [&] { using etl::swap; swap(a1, b1); }, [&] { using std::swap; swap(a2, b2); });
+        eq_sw("lhs", a1, a2);
+        eq_sw("rhs", b1, b2);
+        Sw ar1[2] = {Sw(1, c.x[0]), Sw(2, c.x[1])}, br1[2] = {Sw(3, c.y[0]), Sw(4, c.y[1])};
+        Sw ar2[2] = {Sw(1, c.x[0]), Sw(2, c.x[1])}, br2[2] = {Sw(3, c.y[0]), Sw(4, c.y[1])};
+        adl_compare("using etl::swap; swap(a[2],b[2])", [&] { using etl::swap; swap(ar1, br1); }, [&] { using std::swap; swap(ar2, br2); });
+        eq_sw("lhs[0]", ar1[0], ar2[0]);
+        eq_sw("rhs[1]", br1[1], br2[1]);
+    }
+}
+
 // ------------------------------------------------------------------------------------------------ random part
 int boundary_int(vf::Rng& r)
 {
@@ -866,6 +996,7 @@ void run_case(vf::Case& c)
         tuple_misc(x);
         tuple_move_only(x);
         tuple_spy(x);
+        swap_adl(x);
     } else {
         x.h = vf::mix(0xC20F, c.rng.next());
         std::snprintf(x.desc, sizeof x.desc, "random case %llu", (unsigned long long)c.index);
